@@ -143,6 +143,9 @@ pub fn build(
                 );
             }
         }
+        if fields.iter().any(|(n, _)| *n == name.0) {
+            anyhow::bail!("case `{name}` is defined more than once in enum `{resolvee_path}`");
+        }
         fields.push((name.0.clone(), value));
 
         for attribute in attributes {
